@@ -11,6 +11,8 @@ import (
 	"reflect"
 	"sort"
 	"strings"
+
+	"golang.org/x/tools/go/ssa"
 )
 
 // Normalisation of extracted helpers (source-to-source, in memory).
@@ -2261,4 +2263,69 @@ func shapeSimilarity(a, b string) float64 {
 		d = -d
 	}
 	return sc - float64(d)/float64(1000*(na+nb+1))
+}
+
+var pinnedNameCache = map[*Prog]map[string]string{}
+
+// pinnedNameOf: the name a function of the present tree had in the pinned tree: its own when the pinned tree has it;
+// for a function under a new name, the vacant pinned name of the same signature whose pinned body shape is closest
+// (pinned_shapes.go); otherwise its own. Used for constructs that are recorded (known findings) so that a rename of
+// unexported identifiers does not turn a recorded finding into a new one.
+func pinnedNameOf(p *Prog, f *ssa.Function) string {
+	obj, _ := f.Object().(*types.Func)
+	if obj == nil {
+		return p.FuncKey(f)
+	}
+	key := funcObjKey(obj)
+	m, ok := pinnedNameCache[p]
+	if !ok {
+		m = map[string]string{}
+		pinnedNameCache[p] = m
+		present := map[string]*types.Func{}
+		decls := map[string]*ast.FuncDecl{}
+		for _, file := range p.Root.Syntax {
+			for _, d := range file.Decls {
+				if fd, ok := d.(*ast.FuncDecl); ok {
+					if o, ok := p.Root.TypesInfo.Defs[fd.Name].(*types.Func); ok {
+						present[funcObjKey(o)] = o
+						decls[funcObjKey(o)] = fd
+					}
+				}
+			}
+		}
+		var vacant []string
+		for k := range pinnedSigs {
+			if _, ok := present[k]; !ok {
+				vacant = append(vacant, k)
+			}
+		}
+		sort.Strings(vacant)
+		var keys []string
+		for k := range present {
+			if _, isPinned := pinnedSigs[k]; !isPinned {
+				keys = append(keys, k)
+			}
+		}
+		sort.Strings(keys)
+		taken := map[string]bool{}
+		for _, v := range vacant {
+			best, bestScore := "", -1.0
+			for _, k := range keys {
+				if taken[k] || sigKey(present[k]) != pinnedSigs[v] {
+					continue
+				}
+				if sc := shapeSimilarity(pinnedShapes[v], bodyShape(decls[k])); sc > bestScore {
+					best, bestScore = k, sc
+				}
+			}
+			if best != "" {
+				taken[best] = true
+				m[best] = v
+			}
+		}
+	}
+	if v, ok := m[key]; ok {
+		return v
+	}
+	return key
 }
